@@ -673,7 +673,13 @@ class APIConnection:
             klass = SocketAPIError
         else:
             klass = UnhandledAPIConnectionError
-        new_exc = klass(f"Error while {action} connection: {err_str}")
+        msg = f"Error while {action} connection: {err_str}"
+        fatal = self._fatal_exception
+        if klass is type(fatal) and hasattr(fatal, "received_name"):
+            # BadNameAPIError and InvalidEncryptionKeyAPIError carry the received name
+            new_exc = klass(msg, fatal.received_name)  # type: ignore[call-arg, union-attr]
+        else:
+            new_exc = klass(msg)
         new_exc.__cause__ = cause or ex
         return new_exc
 
